@@ -363,10 +363,10 @@ fn concurrent(ctx: &mut Ctx, rng: &mut Rng, i: u64) {
 }
 
 pub fn run(ctx: &mut Ctx) {
-    let ns = ctx.n(640, 3000);
+    let ns = ctx.n(640, 15_000);
     ctx.family("sequential", ns, sequential);
-    let np = ctx.n(320, 2000);
+    let np = ctx.n(320, 8000);
     ctx.family("pipeline", np, pipeline_case);
-    let nc = ctx.n(160, 600);
+    let nc = ctx.n(160, 3000);
     ctx.family("concurrent", nc, concurrent);
 }
